@@ -22,7 +22,6 @@ import (
 	"github.com/ErdemOzgen/blackdagger/verifharness/agentkit"
 	"github.com/ErdemOzgen/blackdagger/verifharness/rep"
 	"github.com/ErdemOzgen/blackdagger/verifharness/sim"
-	"gopkg.in/yaml.v2"
 	"pgregory.net/rapid"
 )
 
@@ -30,7 +29,23 @@ const ID = "C08"
 
 func TestMain(m *testing.M) { rep.Main(m, ID) }
 
-func genLive(t *rapid.T) sim.Case {
+// LiveCase is a DagCase plus the size of the definition: BigDesc > 0 gives the
+// first step a description of that many bytes, so that the status document the
+// run serves and records is large (beyond 64 KiB).
+type LiveCase struct {
+	sim.Case
+	BigDesc int `json:"bigDesc,omitempty"`
+}
+
+func genLive(t *rapid.T) LiveCase {
+	lc := LiveCase{Case: genDag(t)}
+	if rapid.IntRange(0, 3).Draw(t, "big") == 0 {
+		lc.BigDesc = rapid.SampledFrom([]int{5000, 70000, 140000}).Draw(t, "bigDesc")
+	}
+	return lc
+}
+
+func genDag(t *rapid.T) sim.Case {
 	c := sim.Gen(t, sim.GenOpts{MaxSteps: 4, Retries: true, Handlers: true, Preconds: true})
 	c.MaxActive, c.DelayUS, c.TimeoutP, c.Stop, c.Dry = 0, 0, 0, nil, false
 	for i := range c.Steps {
@@ -49,39 +64,9 @@ func genLive(t *rapid.T) sim.Case {
 	return c
 }
 
-func yamlOf(c *sim.Case) string {
-	var steps []any
-	for _, s := range c.Steps {
-		m := yaml.MapSlice{{Key: "name", Value: s.Name}, {Key: "command", Value: "scripted"}, {Key: "executor", Value: sim.ExecType}}
-		if len(s.Depends) > 0 {
-			m = append(m, yaml.MapItem{Key: "depends", Value: s.Depends})
-		}
-		if s.ContFail || s.ContSkip {
-			m = append(m, yaml.MapItem{Key: "continueOn", Value: map[string]bool{"failure": s.ContFail, "skipped": s.ContSkip}})
-		}
-		switch s.Precond {
-		case 1:
-			m = append(m, yaml.MapItem{Key: "preconditions", Value: []any{map[string]string{"condition": "1", "expected": "1"}}})
-		case 2:
-			m = append(m, yaml.MapItem{Key: "preconditions", Value: []any{map[string]string{"condition": "0", "expected": "1"}}})
-		}
-		if s.RetryLimit >= 0 {
-			m = append(m, yaml.MapItem{Key: "retryPolicy", Value: map[string]int{"limit": s.RetryLimit, "intervalSec": 0}})
-		}
-		steps = append(steps, m)
-	}
-	def := yaml.MapSlice{{Key: "steps", Value: steps}}
-	if len(c.Handlers) > 0 {
-		h := yaml.MapSlice{}
-		for k := range c.Handlers {
-			key := map[string]string{"onSuccess": "success", "onFailure": "failure", "onCancel": "cancel", "onExit": "exit"}[k]
-			h = append(h, yaml.MapItem{Key: key, Value: yaml.MapSlice{{Key: "command", Value: "scripted"}, {Key: "executor", Value: sim.ExecType}}})
-		}
-		def = append(def, yaml.MapItem{Key: "handlerOn", Value: h})
-	}
-	b, _ := yaml.Marshal(def)
-	return string(b)
-}
+func yamlOf(c *sim.Case) string { return sim.YAML(c, 0, "") }
+
+func yamlBig(c *sim.Case, bigDesc int) string { return sim.YAML(c, bigDesc, "") }
 
 type observation struct {
 	When   string            `json:"when"`
@@ -148,8 +133,9 @@ func snapshot(w *sim.World) (open, exited, started map[string]bool) {
 	return
 }
 
-func checkLive(t rep.Fataler, c sim.Case) {
-	rep.Begin(ID, "live", c)
+func checkLive(t rep.Fataler, lc LiveCase) {
+	rep.Begin(ID, "live", lc)
+	c := lc.Case
 	snap := agentkit.EnvSnapshot()
 	defer agentkit.RestoreEnv(snap)
 	h, err := agentkit.NewHome("/bin/false")
@@ -157,10 +143,10 @@ func checkLive(t rep.Fataler, c sim.Case) {
 		t.Fatalf("home: %v", err)
 	}
 	defer h.Cleanup()
-	file, _ := h.WriteDAG("c08", yamlOf(&c))
+	file, _ := h.WriteDAG("c08", yamlBig(&c, lc.BigDesc))
 	d, err := dag.Load("", file, "")
 	if err != nil {
-		rep.Fail(t, ID, "live", c, map[string]any{"yaml": yamlOf(&c)}, "generated definition rejected: %v", err)
+		rep.Fail(t, ID, "live", lc, map[string]any{"yaml": yamlOf(&c)}, "generated definition rejected: %v", err)
 	}
 	_, scripts := sim.BuildSteps(&c)
 	w := sim.NewWorld(scripts)
@@ -231,7 +217,7 @@ loop:
 			close(stopPoll)
 			pwg.Wait()
 			w.ReleaseAll()
-			rep.Fail(t, ID, "live", c, map[string]any{"trace": w.Trace()}, "status query failed while steps %v were executing: %v", keys(ob), err)
+			rep.Fail(t, ID, "live", lc, map[string]any{"trace": w.Trace()}, "status query failed while steps %v were executing: %v", keys(ob), err)
 		}
 		o := observation{When: fmt.Sprintf("open=%v", keys(ob)), Status: st.Status.String(), ReqID: st.RequestID, Nodes: map[string]string{}}
 		for _, n := range st.Nodes {
@@ -248,12 +234,12 @@ loop:
 			close(stopPoll)
 			pwg.Wait()
 			w.ReleaseAll()
-			rep.Fail(t, ID, "live", c, map[string]any{"observation": o, "trace": w.Trace()}, "%s", msg)
+			rep.Fail(t, ID, "live", lc, map[string]any{"observation": o, "trace": w.Trace()}, "%s", msg)
 		} else if msg != "" {
 			close(stopPoll)
 			pwg.Wait()
 			w.ReleaseAll()
-			rep.Fail(t, ID, "live", c, map[string]any{"observation": o, "trace": w.Trace()}, "while the lifecycle handlers %v were executing: %s", keys(ob), msg)
+			rep.Fail(t, ID, "live", lc, map[string]any{"observation": o, "trace": w.Trace()}, "while the lifecycle handlers %v were executing: %s", keys(ob), msg)
 		}
 		liveChecked++
 		dec := sim.Decision{Pick: 0, Batch: 1}
@@ -282,21 +268,21 @@ loop:
 	pe, np := pollErr, polls
 	pmu.Unlock()
 	if pe != "" {
-		rep.Fail(t, ID, "live", c, map[string]any{"polls": np}, "%s", pe)
+		rep.Fail(t, ID, "live", lc, map[string]any{"polls": np}, "%s", pe)
 	}
 	// after the run's end: the persisted final status is the truth about every step
 	sf, err := h.NewDataStores().HistoryStore().FindByRequestID(file, id)
 	if err != nil {
-		rep.Fail(t, ID, "live", c, nil, "the finished run is not in the history: %v", err)
+		rep.Fail(t, ID, "live", lc, nil, "the finished run is not in the history: %v", err)
 	}
 	latest, err := h.Cli.GetLatestStatus(d)
 	if err != nil || latest.RequestID != id {
-		rep.Fail(t, ID, "live", c, nil, "after the run ended the latest status is not this run's (err=%v)", err)
+		rep.Fail(t, ID, "live", lc, nil, "after the run ended the latest status is not this run's (err=%v)", err)
 	}
 	if b1, _ := latest.ToJSON(); true {
 		b2, _ := sf.Status.ToJSON()
 		if string(b1) != string(b2) {
-			rep.Fail(t, ID, "live", c, map[string]any{"latest": string(b1), "recorded": string(b2)}, "after the run ended the reported status differs from the persisted final status")
+			rep.Fail(t, ID, "live", lc, map[string]any{"latest": string(b1), "recorded": string(b2)}, "after the run ended the reported status differs from the persisted final status")
 		}
 	}
 	res := &sim.Result{Trace: w.Trace(), Final: map[string]sim.NodeFinal{}, Status: sf.Status.Status.String()}
@@ -305,30 +291,34 @@ loop:
 		an := sim.Analyze(res.Trace)
 		if sim.Executed(an, n.Step.Name) > 0 {
 			if n.Log == "" {
-				rep.Fail(t, ID, "live", c, nil, "executed step %q has no log path in the final status", n.Step.Name)
+				rep.Fail(t, ID, "live", lc, nil, "executed step %q has no log path in the final status", n.Step.Name)
 			}
 			if _, err := os.Stat(n.Log); err != nil {
-				rep.Fail(t, ID, "live", c, nil, "log file %q named in the final status of step %q does not exist", n.Log, n.Step.Name)
+				rep.Fail(t, ID, "live", lc, nil, "log file %q named in the final status of step %q does not exist", n.Log, n.Step.Name)
 			}
 			if n.StartedAt == "" || n.StartedAt == "-" || n.FinishedAt == "" || n.FinishedAt == "-" || n.StartedAt > n.FinishedAt {
-				rep.Fail(t, ID, "live", c, nil, "step %q: started %q, finished %q in the final status", n.Step.Name, n.StartedAt, n.FinishedAt)
+				rep.Fail(t, ID, "live", lc, nil, "step %q: started %q, finished %q in the final status", n.Step.Name, n.StartedAt, n.FinishedAt)
 			}
 		}
 	}
 	if msg := sim.JudgeC02(&c, res); msg != "" {
-		rep.Fail(t, ID, "live", c, map[string]any{"final": res.Final, "trace": res.Trace}, "persisted final status contradicts what was executed: %s", msg)
+		rep.Fail(t, ID, "live", lc, map[string]any{"final": res.Final, "trace": res.Trace}, "persisted final status contradicts what was executed: %s", msg)
 	}
 	if msg := sim.JudgeC03(&c, res); msg != "" {
-		rep.Fail(t, ID, "live", c, map[string]any{"final": res.Final, "trace": res.Trace}, "persisted final status contradicts what was executed: %s", msg)
+		rep.Fail(t, ID, "live", lc, map[string]any{"final": res.Final, "trace": res.Trace}, "persisted final status contradicts what was executed: %s", msg)
 	}
 	if want := sim.ExpectedOutcomeNoStop(&c, res); res.Status != want {
-		rep.Fail(t, ID, "live", c, map[string]any{"final": res.Final}, "persisted DAG status %q, the step states dictate %q", res.Status, want)
+		rep.Fail(t, ID, "live", lc, map[string]any{"final": res.Final}, "persisted DAG status %q, the step states dictate %q", res.Status, want)
 	}
 	key := ""
 	if liveChecked >= 2 && len(c.Steps) >= 2 {
 		key = rep.Hash(c.Key() + "|" + fmt.Sprint(obs))
 	}
-	rep.Eval(key, fmt.Sprintf("live-observations:%d", min(liveChecked, 6)), "final:"+res.Status)
+	sizeLabel := "status-document:small"
+	if lc.BigDesc >= 70000 {
+		sizeLabel = "status-document:>64KiB"
+	}
+	rep.Eval(key, fmt.Sprintf("live-observations:%d", min(liveChecked, 6)), "final:"+res.Status, sizeLabel)
 	rep.Label(fmt.Sprintf("poller-queries>=%d", np/100*100))
 	if key != "" && rep.WantSample() {
 		rep.Sample(map[string]any{"stage": "live", "steps": c.Steps, "observations": obs, "final": res.Final, "polls": np})
@@ -340,7 +330,7 @@ func TestLive(t *testing.T) {
 }
 
 func replayLive(t *testing.T, raw json.RawMessage) {
-	var c sim.Case
+	var c LiveCase
 	if err := json.Unmarshal(raw, &c); err != nil {
 		t.Fatal(err)
 	}
